@@ -61,14 +61,14 @@ Section Trim.
   Fixpoint walk_dep (f : nat) (b : bset) (n : nat) (nd : bset) : bset :=
     match f with
     | O => nd
-    | S f' => fold_left (fun nd ch => if nd ch then nd else walk_dep f' b ch (badd nd ch))
+    | S f' => fold_left (fun (nd : bset) (ch : nat) => if nd ch then nd else walk_dep f' b ch (badd nd ch))
                         (succs W b n) nd
     end.
 
   (*    for addr in input_addrs: if addr in self.cell_map: walk_dependents(...)
         (an input that is not in the cell map is only warned about)   (521-526) *)
   Definition dependants (b : bset) (I : list nat) : bset :=
-    fold_left (fun nd a => if b a then walk_dep (wb_n W) b a nd else nd) I (fun _ => false).
+    fold_left (fun (nd : bset) (a : nat) => if b a then walk_dep (wb_n W) b a nd else nd) I (fun _ => false).
 
   (*    networkx raises for a cell that is not a node of dep_graph: an input
         cell that nothing built reads; unless it is an output this becomes
@@ -111,7 +111,7 @@ Section Trim.
     match f with
     | O => st
     | S f' =>
-        fold_left (fun st ch =>
+        fold_left (fun (st : pw) (ch : nat) =>
                      if pw_proc st ch then st
                      else let st1 := mark st ch in
                           if pw_need st1 ch || wb_range W ch then walk_prec f' ch st1
@@ -121,7 +121,7 @@ Section Trim.
 
   (*    for addr in output_addrs: walk_precedents(self.cell_map[addr]) (563-564) *)
   Definition walk_outputs (O : list nat) (st : pw) : pw :=
-    fold_left (fun st o => walk_prec (S (wb_n W)) o st) O st.
+    fold_left (fun (st : pw) (o : nat) => walk_prec (S (wb_n W)) o st) O st.
 
   Record trimmed := {
     tr_wb : workbook;         (* the workbook after the trim *)
